@@ -20,6 +20,9 @@ CHECKS = {
     "C09:Bag.__eq__": lambda: H.chk_eq("Bag", "sound") or H.chk_eq("Bag", "complete") or H.chk_eq("Bag", "no-raise") or H.chk_eq("Bag", "sound", True) or H.chk_eq("Bag", "complete", True) or H.chk_eq("Bag", "no-raise", True),
     "C06:Bag.__eq__": lambda: H.chk_frame("Bag", "__eq__") or H.chk_frame("Bag", "__ne__"),
     **H13.CHECKS,
+    "C02:Bag.vector": lambda: H.chk_bag_vector("fill"),
+    "C09:Bag.vector": lambda: H.chk_bag_vector("eq"),
+    "C09:clones": lambda: next((m for K in H.CLASSES for ne in (False, True) for m in [H.chk_eq(K, "complete", ne)] if m), None),
     "C17:string-expr": lambda: H.chk_c17("string-expr"),
     "C17:wrappers": lambda: H.chk_c17("orders") or H.chk_c17("second-name") or H.chk_c17("cached-call"),
 }
